@@ -528,6 +528,8 @@ class LabelRows(Filter[Iterable[Union[Dense,Sparse]],Iterable[Union[Dense,Sparse
             ind = first.headers[label] if isinstance(label,str) else label
             return map(LabelDense, rows, repeat(ind), repeat(tipe))
         else:
+            #sparse rows with headers are keyed by header so an index label is translated to its header
+            if not isinstance(label,str): label = (getattr(first,'_inv',None) or {}).get(label,label)
             return map(LabelSparse, rows, repeat(label), repeat(tipe))
 
 class EncodeCatRows(Filter[Iterable[Union[Any,Dense,Sparse]], Iterable[Union[Any,Dense,Sparse]]]):
